@@ -38,6 +38,7 @@ class SimFS:
         self.log = []
         self.fail_replace = False
         self.enospc = None        # True, or a set of paths: writes and creations there fail with ENOSPC
+        self.read_fault = None    # (path, errno): the next open-for-reading of that path fails once
         self.fds = {}             # os.open() descriptors: fd -> (path, flags)
         self._next_fd = 1000
 
@@ -110,6 +111,11 @@ class SimFS:
             return io.BytesIO(data) if 'b' in mode else io.StringIO(data.decode('utf-8'))
         path = str(path)
         if 'r' in mode and '+' not in mode:
+            if self.read_fault and self.read_fault[0] == path:
+                # fault: one transient failure to open/read an existing file (EIO, EMFILE, EACCES ...)
+                err = self.read_fault[1]
+                self.read_fault = None
+                raise OSError(err, _os.strerror(err), path)
             if path not in self.inodes:
                 raise FileNotFoundError(2, 'No such file or directory', path)
             data = self.inodes[path].data
